@@ -60,8 +60,8 @@ class C11(flow.Spec):
     partial = ['C11_lex_roundtrip_* are FULL (PkgLength in all four widths, numbers, strings, every name form, every opcode of the generated maps)',
                'C11_full_parse_encode (the full statement, Props/C11.v) is NOT proved and is in fact FALSE for the current parser: '
                'C11_parse_encode_refuted exhibits one well-formed program per known finding on which the faithful model rejects the table or '
-               'builds another namespace. C11_parse_encode_partial (Props/C11_frag.v) PROVES the statement for fragment F0 (one table, any number of '
-               'Name(<single NameSeg>, <integer constant>) declarations); outside that fragment and the lexical level the statement '
+               'builds another namespace. C11_parse_encode_partial / _F1 (Props/C11_frag.v) PROVE the statement for fragments F0 (one table, any number of '
+               'Name(<single NameSeg>, <integer constant>) declarations) and F1 (those and Device blocks nested to any depth); outside that fragment and the lexical level the statement '
                'is TESTED, not proved - by the correspondence (Python encoder = Coq encode, Python ns = Coq ns, wf_program accepts every generated '
                'program, model parser = real parser incl. the Coq namespace view = the harness view) and by the monitor on the real parser',
                'productions inside the tested fragment: DefScope (incl. Scope(\\)), Device, Processor, PowerRes, ThermalZone, Method (0-7 args, nested names), Name, '
